@@ -9,7 +9,7 @@ import time
 
 import vlib
 
-REPLAYS = os.path.join(vlib.VERIF, 'replays')
+REPLAYS = os.path.join(vlib.OUTBASE, 'replays')
 
 
 class Context:
